@@ -181,7 +181,7 @@ def enum_gphp(tier):
         for fun in (False, True):
             for onto in (False, True):
                 c = dict(g)
-                c['as'] = 'networkx' if (i + fun + 2 * onto) % 3 == 0 else 'cnfgen'
+                c['as'] = ('networkx', 'cnfgen', 'networkx-rl', 'cnfgen')[(i + fun + 2 * onto) % 4]
                 yield {'graph': c, 'functional': fun, 'onto': onto, 'cls': 'OPB' if (i + fun) % 2 else 'CNF'}
 
 
@@ -430,7 +430,7 @@ def enum_subsetcard(tier):
     for i, g in enumerate(gg.all_bipartite_graphs(*lim)):
         for eq in (False, True):
             c = dict(g)
-            c['as'] = 'networkx' if (i + eq) % 3 == 0 else 'cnfgen'
+            c['as'] = ('networkx', 'cnfgen', 'networkx-rl', 'cnfgen')[(i + eq) % 4]
             yield {'graph': c, 'equalities': eq, 'cls': 'OPB' if (i + eq) % 2 else 'CNF'}
 
 
@@ -505,7 +505,7 @@ SUBCHECKS = [
              required_labels=['sat', 'unsat', 'fun', 'nofun', 'onto', 'noonto', 'm>n', 'm=n', 'zero-parameter', 'CNF', 'OPB']),
     SubCheck('gphp', run_gphp, enumerate_cases=enum_gphp, strategy=strat_gphp, quick=800, thorough=40000,
              rule="GraphPigeonholePrinciple on every bipartite graph <=3x3 (thorough 3x4) and Hypothesis graphs <=4x5 with <=16 edges, cnfgen and networkx objects; " + ORACLE + NT,
-             required_labels=['sat', 'unsat', 'networkx', 'cnfgen', 'isolated-vertex', 'empty-side']),
+             required_labels=['sat', 'unsat', 'networkx', 'networkx-rl', 'cnfgen', 'isolated-vertex', 'empty-side']),
     SubCheck('bphp', run_bphp, enumerate_cases=enum_bphp,
              rule="BinaryPigeonholePrinciple(m,n) for all m*ceil(log2 n)<=20 (thorough 22), n in 0..17; " + ORACLE + NT,
              required_labels=['sat', 'unsat', 'n-not-power-of-two', 'zero-parameter', 'one-hole']),
@@ -520,7 +520,7 @@ SUBCHECKS = [
              required_labels=['sat', 'unsat', 'isolated-vertex', 'disconnected', 'odd-order', 'networkx']),
     SubCheck('subsetcard', run_subsetcard, enumerate_cases=enum_subsetcard, strategy=strat_subsetcard, quick=600, thorough=30000,
              rule="SubsetCardinalityFormula(B,equalities) on every bipartite graph <=3x3 (thorough 3x4) and Hypothesis graphs <=4x5; oracle: left >= ceil(d/2), right <= floor(d/2) (equalities: ==) on all assignments; " + NT,
-             required_labels=['sat', 'unsat', 'equalities', 'inequalities', 'odd-degree', 'isolated-vertex']),
+             required_labels=['sat', 'unsat', 'equalities', 'inequalities', 'odd-degree', 'isolated-vertex', 'networkx-rl']),
     SubCheck('cliquecoloring', run_cliquecoloring, enumerate_cases=enum_cliquecoloring,
              rule="CliqueColoring(n,k,c) for all triples with <=20 (thorough 22) variables; oracle: clique map total/functional/injective/edge-forcing, colouring total/functional/proper; sat iff k<=n, k<=c, (c>=1 or n=0); " + NT,
              required_labels=['sat', 'unsat', 'zero-parameter', 'k=c+1']),
